@@ -366,6 +366,11 @@ def run_property(pid, prop, tier, seed, only=None, jobs=None, replay_only=None):
                     known_hits.append({"harness": name, "what": k["what"], "checks": descs})
                 r["verdict"] = "known"
                 continue
+            if violations and not os.environ.get("VERIF_REPLAY_ALL"):
+                # one natively confirmed violation decides the run; further failing harnesses are listed, not replayed
+                r["verdict"] = "fail-unreplayed"
+                r["reason"] = "failed check(s) %s; not replayed because a violation of this property was already confirmed" % descs[:2]
+                continue
             # replay
             log("[%s] %s: failed check(s) %s -> extracting counterexample" % (pid, name, descs[:3]))
             tests = concrete_playback(name, flags, hmeta.get("timeout", 600), hmeta.get("mem_gb", 14), logdir)
